@@ -169,11 +169,21 @@ def sketch_traces(items, per_worker, flushed, N, result, which):
     return traces
 
 
+TYPES = {"cms": impl.countmin.CountMinLinear, "hh": impl.heavyhitters.HeavyHitters, "hll": impl.hyperloglog.HyperLogLog}
+
+
 def unpack(res, which):
+    """parallel_add returns the sketches in alphabetical order cms, hh, hll (a single sketch bare).
+    Returns None when the returned value does not have that shape."""
     order = [x for x in ("cms", "hh", "hll") if x in which]
-    if len(order) == 1:
-        return {order[0]: res}
-    return dict(zip(order, res))
+    vals = (res,) if len(order) == 1 else res
+    if not isinstance(vals, tuple) or len(vals) != len(order):
+        return None
+    out = dict(zip(order, vals))
+    for k, v in out.items():
+        if not isinstance(v, TYPES[k]):
+            return None
+    return out
 
 
 def sequential_hll(items, ids):
@@ -223,7 +233,8 @@ def replay_outcome(report, N, K, fault_sel, die, out, rng, which, batch):
             items, padd_cb.cb, N,
             cms_args=dict(CMS_ARGS) if "cms" in which else None,
             hh_args=dict(HH_ARGS) if "hh" in which else None,
-            hll_args=dict(HLL_ARGS) if "hll" in which else None, assign=assign)
+            hll_args=dict(HLL_ARGS) if "hll" in which else None, assign=assign,
+            tag="tag-%d" % len(which), expect=len(which))
     finally:
         fakemp.Sched.__init__ = old_init
         padd_cb.CTL = None
@@ -246,6 +257,8 @@ def replay_outcome(report, N, K, fault_sel, die, out, rng, which, batch):
         if got_assign != out["assign"]:
             return bad("dequeues went to workers %s" % got_assign)
         result = unpack(res, which)
+        if result is None:
+            return bad("parallel_add returned %r for sketches %s (expected cms, hh, hll in that order)" % (res, sorted(which)))
         per_worker = {w: [i for ww, i in deqs if ww == w and i is not None] for w in range(N)}
         # items whose contribution the run must hold: ok items and (in this callback) raise-after items
         held = set(out["bag"]) | set(out["part"])
@@ -289,7 +302,7 @@ def real_run(N, K, fault_sel, die_item, rng, which, generator=False, timeout_s=6
                                         cms_args=dict(CMS_ARGS) if "cms" in which else None,
                                         hh_args=dict(HH_ARGS) if "hh" in which else None,
                                         hll_args=dict(HLL_ARGS) if "hll" in which else None,
-                                        logdir=logdir, die_item=die_item)
+                                        logdir=logdir, die_item=die_item, tag="tag-%d" % len(which), expect=len(which))
         outcome, exc = "returned", None
     except Exception as e:
         res, outcome, exc = None, "raised", e
@@ -348,6 +361,8 @@ def validate_real(report, run, batch, tag):
         return bad("items processed: %s of 1..%d" % (sorted(owner), K), {"padd_real": "missing"})
     assign = [owner[i] for i in range(1, K + 1)] + list(range(1, N + 1))
     result = unpack(run["res"], run["which"])
+    if result is None:
+        return bad("parallel_add returned %r for sketches %s" % (run["res"], sorted(run["which"])), {"padd_real": "shape"})
     nrecs = {int(result[n].n_records()) for n in ("cms", "hh") if n in result}
     if len(nrecs) > 1:
         return bad("cms and hh disagree on n_records: %s" % nrecs, {"padd_real": "nrec"})
